@@ -49,6 +49,20 @@ pub mod cases {
             checks: &[NoWarnings, ItemHas("pubenumConfigWrappedInner{", "release(()),setup(Info)"), ItemHas("pubstructConfigWrapped{", "pubinner:Option<ConfigWrappedInner>"),
                       ItemHas("pubstructConfigWrapped{", "#[rasn(value(\"0..=200\"))]pubn:u8"), Lacks("Option<SetupRelease>"), Lacks(":SetupRelease,"),
                       ItemHas("pubstructDeepCW{", "#[rasn(value(\"0..=200\"))]pubm:u8"), ItemHas("pubenumDeepCWInner{", "setup(Info)")] },
+        // ---- C02: a parameterized type used inside another parameterized type is instantiated with the actual parameter,
+        //      whether the templates' names sort before or after the instance's
+        Case { ob: "C02.cases.nested_parameterized_types_are_instantiated_in_any_definition_order", srcs: &["M DEFINITIONS AUTOMATIC TAGS ::= BEGIN
+            Inner {T} ::= SEQUENCE { i T }
+            ZOuter {T} ::= SEQUENCE { inner Inner {T}, k INTEGER (0..3) }
+            Use ::= ZOuter {BOOLEAN}
+            AOuter {T} ::= SEQUENCE { inner Inner {T}, k INTEGER (0..3) }
+            Vse ::= AOuter {BOOLEAN}
+            ZInner {T} ::= SET { j T }
+            BOuter {T} ::= SEQUENCE { inner ZInner {T} }
+            Wse ::= BOuter {INTEGER}
+            END"],
+            checks: &[NoWarnings, ItemHas("pubstructUseInner{", "pubi:bool"), ItemHas("pubstructVseInner{", "pubi:bool"), ItemHas("pubstructWseInner{", "pubj:Integer"),
+                      Lacks("pubi:T,"), Lacks("pubj:T,")] },
         // ---- C02 / C09: COMPONENTS OF inside a [[ ]] version group
         Case { ob: "C02.cases.components_of_inside_a_version_group_are_kept", srcs: &["M DEFINITIONS AUTOMATIC TAGS ::= BEGIN
             Base ::= SEQUENCE { x INTEGER, y BOOLEAN OPTIONAL }
@@ -58,7 +72,7 @@ pub mod cases {
             checks: &[NoWarnings, ItemHas("pubstructDExtGroupB{", "pubb:bool"), ItemHas("pubstructDExtGroupB{", "pubx:Integer"), ItemHas("pubstructDExtGroupB{", "puby:Option<bool>"),
                       ItemHas("pubstructD{", "pubext_group_b:Option<DExtGroupB>"), ItemHas("pubstructD{", "pubd:OctetString")] },
         // ---- C02: COMPONENTS OF a type that itself uses COMPONENTS OF — every inherited component exactly once
-        Case { ob: "C02.cases.chained_components_of_are_copied_exactly_once", srcs: &["M DEFINITIONS AUTOMATIC TAGS ::= BEGIN
+        Case { ob: "C02.cases.chained_components_of_are_copied_exactly_once_in_any_definition_order", srcs: &["M DEFINITIONS AUTOMATIC TAGS ::= BEGIN
             Top ::= SEQUENCE { top INTEGER (0..255), COMPONENTS OF Wide }
             Wide ::= SEQUENCE { wide BOOLEAN OPTIONAL, COMPONENTS OF Zero }
             Zero ::= SEQUENCE { zero NULL, last OCTET STRING }
@@ -68,8 +82,12 @@ pub mod cases {
             Both ::= SEQUENCE { own INTEGER, COMPONENTS OF One, COMPONENTS OF Two }
             One ::= SEQUENCE { a BOOLEAN }
             Two ::= SEQUENCE { b NULL OPTIONAL }
+            Zz ::= SEQUENCE { a INTEGER, COMPONENTS OF Yy }
+            Yy ::= SEQUENCE { b BOOLEAN, COMPONENTS OF Xx }
+            Xx ::= SEQUENCE { c NULL }
             END"],
-            checks: &[NoWarnings, ItemCount("pubstructTop{", "pubzero:", 1), ItemCount("pubstructTop{", "publast:", 1), ItemCount("pubstructTop{", "pubwide:", 1), ItemCount("pubstructTop{", "pubtop:u8", 1),
+            checks: &[NoWarnings, ItemCount("pubstructZz{", "pubc:()", 1), ItemCount("pubstructZz{", "pubb:bool", 1), ItemCount("pubstructZz{", "puba:Integer", 1), ItemCount("pubstructYy{", "pubc:()", 1),
+                      ItemCount("pubstructTop{", "pubzero:", 1), ItemCount("pubstructTop{", "publast:", 1), ItemCount("pubstructTop{", "pubwide:", 1), ItemCount("pubstructTop{", "pubtop:u8", 1),
                       ItemCount("pubstructWide{", "pubzero:", 1), ItemCount("pubstructWide{", "publast:", 1),
                       ItemCount("pubstructHolderInner{", "pubroot:", 1), ItemCount("pubstructHolderInner{", "pubmid:", 1), ItemCount("pubstructHolderInner{", "pubown:", 1),
                       ItemCount("pubstructBoth{", "puba:bool", 1), ItemCount("pubstructBoth{", "pubb:Option<()>", 1)] },
@@ -144,6 +162,43 @@ pub mod cases {
             END"],
             checks: &[NoWarnings, AttrsHave("pubstructPrio(", "value(\"0..=10\")"), AttrsHave("pubstructSub(", "value(\"0..=5\")"), AttrsHave("pubstructBuf(", "size(\"1..=4\")"),
                       Has("pubstructKey(pubFixedOctetString<4usize>)"), ItemHas("pubstructRec{", "#[rasn(value(\"4..=100\"))]pubn:u8"), ItemHas("pubstructRec{", "#[rasn(size(\"0..=4\"))]publ:SequenceOf<bool>")] },
+        // ---- C04 / C06: a dummy reference of a parameterized type is bound to the ACTUAL parameter, whatever value, named number or
+        //      enumeral of the module shares its name and in whatever order the definitions are processed (template named before / after the instance)
+        Case { ob: "C04.cases.dummy_reference_is_bound_to_the_actual_parameter_not_to_a_same_named_definition", srcs: &["M DEFINITIONS AUTOMATIC TAGS ::= BEGIN
+            Level ::= ENUMERATED { lower, upper }
+            Prio ::= INTEGER { low(0), top(7) }
+            hi INTEGER ::= 10
+            ParamType { INTEGER: upper } ::= SEQUENCE { f INTEGER (0..upper) }
+            Impl ::= ParamType { 70000 }
+            AParamType { INTEGER: upper } ::= SEQUENCE { f INTEGER (0..upper) }
+            Bmpl ::= AParamType { 70000 }
+            ZTop { INTEGER: top } ::= INTEGER (0..top)
+            Named ::= ZTop { 300 }
+            ZHi { INTEGER: hi } ::= OCTET STRING (SIZE(1..hi))
+            Sized ::= ZHi { 20 }
+            END"],
+            checks: &[NoWarnings, ItemHas("pubstructImpl{", "#[rasn(value(\"0..=70000\"))]pubf:u32"), ItemHas("pubstructBmpl{", "#[rasn(value(\"0..=70000\"))]pubf:u32"),
+                      AttrsHave("pubstructNamed(", "value(\"0..=300\")"), AttrsHave("pubstructSized(", "size(\"1..=20\")")] },
+        Case { ob: "C06.cases.width_of_a_template_instance_follows_the_actual_parameter", srcs: &["M DEFINITIONS AUTOMATIC TAGS ::= BEGIN
+            Level ::= ENUMERATED { lower, upper }
+            ParamType { INTEGER: upper } ::= SEQUENCE { f INTEGER (0..upper) }
+            Impl ::= ParamType { 70000 }
+            ZTop { INTEGER: upper } ::= INTEGER (0..upper)
+            Named ::= ZTop { 300 }
+            END"],
+            checks: &[ItemHas("pubstructImpl{", "pubf:u32"), Has("pubstructNamed(pubu16)")] },
+        // ---- C06: the literal of a DEFAULT is declared with the type of the field, in whatever order the definitions are processed
+        //      (the referenced type's bound is itself a reference; the user's name sorts before / after the referenced type's)
+        Case { ob: "C06.cases.default_literal_has_the_type_of_the_field_in_any_definition_order", srcs: &["M DEFINITIONS AUTOMATIC TAGS ::= BEGIN
+            big INTEGER ::= 70000
+            E ::= INTEGER { one(1), top(70000) } (0..top)
+            F ::= SEQUENCE { f E DEFAULT one, g INTEGER (0..big) DEFAULT 2 }
+            A ::= SEQUENCE { f E DEFAULT one, h Zz DEFAULT 3 }
+            Zz ::= INTEGER (0..big)
+            Zy ::= SEQUENCE { h Zz DEFAULT 3 }
+            END"],
+            checks: &[NoWarnings, Has("fnf_f_default()->E{E(1)}"), Has("fnf_g_default()->u32{2}"), Has("fna_f_default()->E{E(1)}"), Has("fna_h_default()->Zz{Zz(3)}"), Has("fnzy_h_default()->Zz{Zz(3)}"),
+                      Has("pubstructE(pubu32)"), Has("pubstructZz(pubu32)")] },
         // ---- C05: anonymous extensible types declared inside a [[ ]] version group stay extensible
         Case { ob: "C05.cases.anonymous_types_inside_a_version_group_keep_their_own_extensibility", srcs: &["M DEFINITIONS AUTOMATIC TAGS ::= BEGIN
             Report ::= SEQUENCE { id INTEGER, ..., plain CHOICE { x INTEGER, ..., y BOOLEAN },
